@@ -58,6 +58,11 @@ CHECKS = {
   note="Trusted: go/ssa, the must-held lock analysis. Two genuine defects (slot from live counter, check-then-act) were repaired by fix: commits.",
   tech="static analysis: value-provenance of the block index, shape rules on SSA arithmetic, lock-hold analysis, path-sensitive must-log dataflow",
   ref="DESIGN.md §2 C10"),
+ "C04": dict(
+  text="The PPPoE server's per-session handlers are analysed by finite-domain disjunctive dataflow over (session state x authenticated flag) for every pre-configuration allowed by the invariant: no handler leaves a session Established, takes a client address from the pool, or sends an IPCP packet in a configuration whose authenticated flag is false; the flag is stored only from this exchange's RADIUS verdict (value provenance through the phi of the && chain; constant true only with no RADIUS client); in the session-frame and PADT handlers every use of the looked-up session is dominated by bytes.Equal(source MAC, session.ClientMAC). CHAP arithmetic and timing are not decided.",
+  note="Trusted: go/ssa; RADIUS library semantics of AuthResponse.Accepted. Both C04 gaps of the original tree (no IPCP gate, no owner-MAC check) were repaired by fix: commits.",
+  tech="static analysis: finite-domain disjunctive dataflow (property simulation) over session state/flag + value-provenance and dominance rules on go/ssa",
+  ref="DESIGN.md §2 C04"),
 }
 NA = {}
 def main():
